@@ -136,13 +136,23 @@ func (r *checkRun) writeEvidence() error {
 		"checker_cmd":          fmt.Sprintf("./check %s %s", r.prop.ID, r.tier),
 		"trusted_base":         []string{"go/ssa lowering (x/tools v0.29.0)", "gosym interpreter and term simplifier", "z3 4.8.12 / cvc5 1.0 / z3 5.1", "stubs and intrinsics listed in assumptions"},
 	}
+	assumptions := append([]string{}, r.prop.Assumptions...)
+	seenA := map[string]bool{}
+	for _, rep := range r.reports {
+		for a := range rep.Assumptions {
+			if !seenA[a] {
+				seenA[a] = true
+				assumptions = append(assumptions, "engine: "+a)
+			}
+		}
+	}
 	ev := map[string]interface{}{
 		"property_id": r.prop.ID,
 		"tier":        r.tier,
 		"seed":        r.seed,
 		"level":       r.prop.Level,
 		"coverage":    cov,
-		"assumptions": r.prop.Assumptions,
+		"assumptions": assumptions,
 		"wall_s":      r.wall.Seconds(),
 		"violations":  nViol,
 	}
